@@ -160,6 +160,36 @@ def render_tokens(seq, rnd=None):
 CORE_TOKENS = ["a", "pattern", "+", ";", "{", "}", '"b"', "'b'", '"+"', "'+'", '""']
 
 
+# ------------------------------------------------------------------ code points that are NOT blanks for YANG
+# RFC 7950 separates tokens by space, tab, carriage return and line feed only.  Everything unicode.IsSpace adds (VT, FF,
+# NEL, NBSP, ...) and a few look-alike neighbours that IsSpace does not include are ordinary token characters.
+UNI_SPACES = [0x0B, 0x0C, 0x85, 0xA0, 0x1680] + list(range(0x2000, 0x200B)) + [0x2028, 0x2029, 0x202F, 0x205F, 0x3000]
+UNI_NEIGHBOURS = [0x1C, 0x1D, 0x1E, 0x1F, 0x200B, 0xFEFF, 0x180E, 0xAD, 0x2060, 0x00]
+UNI_TEMPLATES = ["W", "aWb;", "k xWy;", "kWv;", "k vW;", "k v;W", "k v;\nW\n", "Wk v;", "k v;W\n", "W;", "k W;", "k W v;", "kW{Wl m;W}", "k {WlWm;}W",
+                 'k "xWy";', "k 'xWy';", 'k "x W\n Wy";', 'k "xW\nWy";', "k /*W*/ v;", "k/*W*/v;", "k v; //W\nz w;", "k v; //\nWz w;", "/*W", "//W",
+                 'k "a"W+W"b";', 'k "a" +W"b";', 'pattern "\\W";', 'k "\\W";', "k 'a'W;", "W W", "k\tW\tv;", "k\r\nW\r\nv;", "a;Wb;", "a{W}", "k W{ l; }",
+                 "k v;\nW", "k v; W }", '"W" v;']
+
+
+def unicode_space_texts(tier="quick"):
+    out = []
+    for cp in UNI_SPACES + UNI_NEIGHBOURS:
+        w = chr(cp)
+        for t in UNI_TEMPLATES:
+            out.append(t.replace("W", w))
+    return out
+
+
+def unicode_space_exhaustive(maxlen):
+    """every string up to maxlen over {a ; { " ' SP LF W} for every such code point W"""
+    for cp in UNI_SPACES + UNI_NEIGHBOURS:
+        w = chr(cp)
+        for n in range(1, maxlen + 1):
+            for tup in itertools.product(["a", ";", "{", '"', "'", " ", "\n", w], repeat=n):
+                if w in tup:
+                    yield "".join(tup)
+
+
 def token_sequences(maxlen, minlen=0, alphabet=None):
     for n in range(minlen, maxlen + 1):
         for seq in itertools.product(alphabet or TOKEN_ALPHABET, repeat=n):
@@ -184,6 +214,11 @@ def gen(tier, seed):
     for seq in token_sequences(tl, 1):
         add("tokens", render_tokens(seq))
         add("tokens-noisy", render_tokens(seq, rnd))
+    # code points unicode.IsSpace knows but YANG does not (and neighbours): they are token characters, one column each
+    for t in unicode_space_texts():
+        add("unicode-space", t)
+    for t in unicode_space_exhaustive(3 if tier == "quick" else 4):
+        add("unicode-space-exhaustive", t)
     # well-formed texts under layout noise
     nwf = 6000 if tier == "quick" else 120000
     for _ in range(nwf):
